@@ -15,8 +15,15 @@ CORPUS = [
      "calls": [{"base": 1, "gate": 0, "args": [], "kwargs": {}}, {"base": 10, "gate": 1, "args": [], "kwargs": {}},
                {"base": 100, "args": [], "kwargs": {}, "resource_dict": {"threads_per_core": 2}}, {"base": 1000, "args": [], "kwargs": {}}],
      "script": [{"c": "submit"}, {"c": "submit"}, {"c": "submit"}, {"c": "submit"}, {"c": "sleep", "ms": 20}, {"c": "release", "g": 0},
-                {"c": "sleep", "ms": 20}, {"c": "release", "g": 1}, {"c": "shutdown", "wait": True, "cancel": False}],
+                {"c": "sleep", "ms": 900}, {"c": "release", "g": 1}, {"c": "shutdown", "wait": True, "cancel": False}],
      "gates": [0, 1], "perturb": {}, "seed": 1, "timeout": 20, "settle": 6},
+    # limit 3, a 2-slot and a 1-slot call running, a 2-slot call waiting: the 1-slot call finishes first (one slot free is not enough)
+    {"executor": {"backend": "local", "block_allocation": False, "max_cores": 3, "disable_dependencies": True},
+     "calls": [{"base": 1, "gate": 0, "args": [], "kwargs": {}, "resource_dict": {"threads_per_core": 2}}, {"base": 10, "gate": 1, "args": [], "kwargs": {}},
+               {"base": 100, "args": [], "kwargs": {}, "resource_dict": {"cores": 1, "threads_per_core": 2}}],
+     "script": [{"c": "submit"}, {"c": "submit"}, {"c": "submit"}, {"c": "wait_enter", "i": 1}, {"c": "release", "g": 1},
+                {"c": "sleep", "ms": 900}, {"c": "release", "g": 0}, {"c": "shutdown", "wait": True, "cancel": False}],
+     "gates": [0, 1], "perturb": {}, "seed": 3, "timeout": 20, "settle": 6},
     {"executor": {"backend": "local", "block_allocation": False, "max_workers": 1, "disable_dependencies": True},
      "calls": [{"base": 1, "gate": 0, "args": [], "kwargs": {}}, {"base": 10, "args": [], "kwargs": {}}, {"base": 100, "args": [], "kwargs": {}}],
      "script": [{"c": "submit"}, {"c": "submit"}, {"c": "submit"}, {"c": "sleep", "ms": 20}, {"c": "release", "g": 0},
